@@ -75,6 +75,7 @@ def check_query(sub, st, pos, q, E, prods, hashes, ev=None, render=True):
             sub.count(d + ':refused'); sub.count(d + ':refused_like_sqlite_by_the_engine'); continue
         if out.kind == 'broken':
             sub.count(d + ':not_executable')
+            for p_ in prods: sub.count('judged:%s:%s' % (d, p_))      # a verdict is given
             M = J.blame_refusal(st['eng'][d], st, E, 'broken:' + out.why) if E is not None else None
             shape = qx.op_skeleton(M or E) if E is not None else pos
             why = out.why
@@ -90,6 +91,7 @@ def check_query(sub, st, pos, q, E, prods, hashes, ev=None, render=True):
                 # Python has an answer on every row and SQLite gives one, but the server would reject the statement
                 M = J.blame_refusal(st['eng'][d], st, E, 'dialect_refused:' + out.why) if E is not None else None
                 name = 'slice/index' if ((M or E) is not None and (M or E).op in J.SLICES) else (qx.op_skeleton(M or E) if E is not None else pos)
+                for p_ in prods: sub.count('judged:%s:%s' % (d, p_))      # a verdict is given
                 sub.violation('%s: server rejects the statement: %s: %s' % (d, name, out.why), case(d, pos, q, E, sql=out.sql),
                               '%s [%s] -> %s' % (text, pos, out.why))
             else: sub.count(d + ':refused_by_dialect_model_where_python_raises_too')
@@ -282,6 +284,7 @@ def check_forms(sub, st, hashes):
             if o.kind == 'undecided': sub.count(d + ':undecided'); sub.count('%s:undecided:%s' % (d, o.why)); continue
             if o.kind in ('broken', 'dialect_refused'):
                 sub.count(d + ':not_executable' if o.kind == 'broken' else d + ':refused_by_dialect_model')
+                sub.count('judged:%s:form %s' % (d, f.text if f.expect is not None else f.name.split(' ')[0]))
                 sub.violation('%s: form %s: %s' % (d, f.name.split(' ')[0] if f.expect is None else f.text, 'SQL text does not run under the dialect model' if o.kind == 'broken' else 'server rejects the statement'),
                               case(d, 'form', f, None, sql=o.sql), '%s -> %s' % (f.source(), o.why))
                 continue
@@ -312,6 +315,7 @@ def check_rowforms(sub, st, hashes):
             if o.kind == 'undecided': sub.count(d + ':undecided'); sub.count('%s:undecided:%s' % (d, o.why)); sub.count('other:%s:form COUNT(DISTINCT row)' % d); continue
             if o.kind in ('broken', 'dialect_refused'):
                 sub.count(d + ':not_executable' if o.kind == 'broken' else d + ':refused_by_dialect_model')
+                sub.count('judged:%s:form COUNT(DISTINCT row)' % d)
                 sub.violation('%s: form COUNT(DISTINCT row): %s' % (d, 'SQL text does not run under the dialect model' if o.kind == 'broken' else 'server rejects the statement'),
                               case(d, 'rowform', f, None, sql=o.sql), '%s -> %s' % (f.source(), o.why))
                 continue
